@@ -178,6 +178,17 @@ def _real_shell(M, pfx, l, K, Mn, coord, exps, conv=None):
 
 class PointChargeInline:
     fp = True  # also sampled on the unmodified float64 code (bounded stand-in for rounding)
+
+    def fp_shapes(self, tier):
+        # besides the ordinary samples: everything 50-80 bohr from the origin, a tight primitive pair, the charge 1e-4..2e-3 bohr
+        # from the product centre (translation invariance of the Boys argument p |PC|^2 in floating point)
+        return self.shapes(tier) + [dict(la=0, lb=0, profile="shifted-tight"), dict(la=1, lb=0, profile="shifted-tight"), dict(la=1, lb=1, profile="shifted-tight")]
+
+    def fp_domain_for(self, shape):
+        if shape.get("profile") == "shifted-tight":
+            return {"pos": (5e3, 1e5), "zero_prob": 0.0, "real": 1.0,
+                    "real_by_prefix": {"P_": (50.0, 80.0, True), "AB": (0.0, 2e-3, True), "W": (1e-4, 2e-3, True), "q": (0.5, 2.0, True)}}
+        return {}
     """end to end on real shells, kernel inlined, in BOTH orientations (l_a >= l_b and l_a < l_b):
     out[m1,c1,m2,c2,n] = -q_n <phi~1| 1/|r-R_n| |phi~2>; and the two orientations are transposes"""
 
